@@ -1381,6 +1381,12 @@ class Wtp:
                 if not expand_parserfns:
                     if not args:
                         return "{{" + fn_name + "}}"
+                    # Like an unexpanded template, the call is re-emitted
+                    # with its arguments processed (selected templates in
+                    # them are expanded; no placeholder leaks to callers)
+                    args = tuple(
+                        expand_recurse(x, parent, expand_all) for x in args
+                    )
                     return "{{" + fn_name + ":" + "|".join(args) + "}}"
                 # Call parser function
                 self.expand_stack.append(fn_name)
